@@ -20,6 +20,10 @@ def nontrivial(line, rec):
 
 
 def run(ctx):
+    import clilib as _cls
+    _cls.stream(ctx, "clisub", gen.cliverdict_lines(ctx.rng.fork("clisub0"), 5, 1, 300 if ctx.quick else 8000, (-1, 0, 1), 5, 5, 20, True, variants=[0, 1, 2], tool_id=None),
+                "cmr-balanced -N: the written submatrix file vs. the matrix parsed from the input bytes",
+                lambda c: gen.CLISUB_CODES.get(c, str(c)))
     import clilib
     clilib.stream(ctx, "cliverdict", gen.cliverdict_lines(ctx.rng.fork("cliverdict"), 5, 3, 400 if ctx.quick else 8000, (-1, 0, 1), 5, 5, 20, True),
                   "cmr-balanced: verdict line vs. the definition-level oracle on the matrix parsed from the input bytes",
